@@ -74,6 +74,18 @@ pub fn run_h(cfg: &str, preds: &str, ops: &str, oracle: &str, fails: &mut Vec<(S
         return errs.join(",");
     }
     let res = crate::sent::run_hist(&built, &models, &flags, ops, oracle, fails);
+    // determinism: the same history on predictors built a second time gives the same observations (every fourth case)
+    if matches!(oracle, "c01" | "c06" | "c08" | "c14" | "c18") && ops.len() % 4 == 0 && !res.contains("panic") {
+        let again: Vec<Option<Predictor>> = preds.split('!').map(|sp| build_pred(sp).1.ok()).collect();
+        if again.iter().all(|p| p.is_some()) {
+            let mut dummy = vec![];
+            let res2 = crate::sent::run_hist(&again, &models, &flags, ops, "", &mut dummy);
+            if res2 != res {
+                let prop = format!("C{}", &oracle[1..]).to_uppercase();
+                fails.push((prop, format!("the same history on predictors built a second time from the same model observes {} instead of {}", &res2[..res2.len().min(300)], &res[..res.len().min(300)])));
+            }
+        }
+    }
     if oracle == "c08" && !res.contains("panic") {
         // the probe (everything from the last update_raw on) also on predictors that have never been used: a predictor is
         // an immutable value, so what it was used for before must not matter either
